@@ -1,3 +1,3 @@
 SPECIFICATION Spec
 CONSTANT Dev = {"ok_before_check"}
-INVARIANTS NoOkWithoutCredentials OnlyValidAdmitted
+INVARIANTS NoOkWithoutCredentials OnlyValidAdmitted AdmittedOnlyByRule
